@@ -1372,6 +1372,12 @@ func (a *Agent) createRelayCandidate(ctx context.Context, ep relayEndpoint, ip n
 	}
 
 	if err := a.addCandidate(ctx, candidate, ep.conn); err != nil {
+		// The candidate was never started and does not own the relayed connection. Close that
+		// connection first: releasing the allocation needs the TURN client, which the
+		// candidate's OnClose closes.
+		if onClose != nil && ep.closeConn != nil {
+			ep.closeConn()
+		}
 		if closeErr := candidate.close(); closeErr != nil {
 			a.log.Warnf("Failed to close candidate: %v", closeErr)
 		}
@@ -1391,6 +1397,13 @@ func (a *Agent) addRelayCandidates(ctx context.Context, ep relayEndpoint) {
 	addresses, ok := a.resolveRelayAddresses(ep)
 	if !ok {
 		return
+	}
+
+	if closeConn := ep.closeConn; closeConn != nil {
+		// createRelayCandidate closes the relayed connection ahead of the TURN client when the
+		// first candidate cannot be added; the call below must then not close it again.
+		var once sync.Once
+		ep.closeConn = func() { once.Do(closeConn) }
 	}
 
 	for idx, ip := range addresses {
